@@ -17,7 +17,7 @@ RULE = ('seeded generator: non-negative images 1..40 per side of any aspect rati
 ASSUMPTIONS = ['a reference convolution whose minimum is above -1e-12*max counts as non-negative']
 PLAN = {'quick': {'gen': 8}, 'thorough': {'gen': 16, 'tests': 1, 'docs': 1}}
 REQUIRED_BUCKETS = ['img:all-zero', 'extent:numpy-scalars', 'img:reduced-precision', 'angle:numpy-integer', 'img:faint', 'img:bright', 'pixel', 'jitter', 'smear', 'shape:square', 'shape:nonsquare', 'shape:odd', 'shape:even', 'img:smooth',
-                    'img:spiky', 'conv:nonneg', 'extent:0', 'translate', 'units', 'sequence', 'img:integer']
+                    'img:spiky', 'conv:nonneg', 'extent:0', 'translate', 'units', 'sequence', 'img:integer', 'extent:small-int*oversample', 'args:positional']
 REQUIRED_ANCHORS = ['probe:pixel', 'probe:jitter', 'probe:smear']
 REQUIRED_ORACLES = ['blur:shape', 'blur>=0', 'blur=conv', 'blur:total', 'translate', 'identity', 'units', 'homogeneous']
 
@@ -114,6 +114,39 @@ def narrow_scalars(ctx, lentil, rng):
                 ctx.check(False, 'units', f'units|numpy-scalars|raises={type(e).__name__}', str(e), {})
 
 
+def small_int_arguments(ctx, lentil, rng):
+    """Extents and oversampling factors as small NumPy integers (motion in whole micrometres, an oversampling factor read from a
+    uint8 header): extent * oversample does not fit the type although both numbers do.  And every argument by position, in the
+    documented order.  The online oracle decides each call from float(...) of the same numbers."""
+    for i in range(ctx.count(8, 40)):
+        img = np.clip(rng.normal(loc=100, scale=40, size=(int(rng.integers(6, 28)), int(rng.integers(6, 28)))), 1, None)
+        os_ = int(rng.integers(2, 5))
+        ext = int(rng.integers(256 // os_ + 1, 127)) if os_ > 2 else int(rng.integers(129, 250))
+        T = np.int8 if ext < 128 and i % 2 else np.uint8
+        ps = float(ext * os_) / float(rng.uniform(0.8, 4))          # true width: 0.8 .. 4 samples
+        ctx.case({'small-int-arguments': i, 'extent': ext, 'os': os_, 'type': np.dtype(T).name}, ['extent:small-int*oversample'])
+        for fn, extra in ((lentil.jitter, {}), (lentil.smear, {'angle': 30.0})):
+            try:
+                with np.errstate(all='ignore'):
+                    fn(img, T(ext), pixelscale=ps, oversample=T(os_), **extra)
+                    fn(img, np.array(ext, dtype=T), pixelscale=ps, oversample=np.array(os_, dtype=T), **extra)
+            except Exception as e:
+                ctx.check(False, 'blur=conv', f'small-int-arguments|raises={type(e).__name__}', str(e), {'fn': fn.__name__, 'type': np.dtype(T).name})
+        # the documented positional order: pixel(img, oversample), jitter(img, scale, pixelscale, oversample),
+        # smear(img, distance, angle, pixelscale, oversample)
+        ctx.bucket('args:positional')
+        sc, ps2, o2 = float(rng.uniform(5e-6, 3e-5)), float(rng.uniform(4e-6, 2e-5)), int(rng.integers(1, 4))
+        try:
+            with np.errstate(all='ignore'):
+                lentil.detector.pixel(img, o2)
+                lentil.jitter(img, sc, ps2, o2)
+                lentil.jitter(img, sc, ps2)
+                lentil.smear(img, sc, float(rng.uniform(0, 180)), ps2, o2)
+                lentil.smear(img, sc, 45.0, ps2)
+        except Exception as e:
+            ctx.check(False, 'blur=conv', f'positional|raises={type(e).__name__}', str(e), {})
+
+
 def install(ctx, lentil):
     probe.wrap_function(lentil.detector.pixel, make_oracle('pixel'), ctx, 'pixel')
     probe.wrap_function(lentil.convolvable.jitter, make_oracle('jitter'), ctx, 'jitter')
@@ -140,6 +173,7 @@ def image(rng, shape, smooth):
 def workload(ctx, lentil):
     rng = ctx.rng
     narrow_scalars(ctx, lentil, rng)
+    small_int_arguments(ctx, lentil, rng)
     n = ctx.count(150, 1200)
     hi = 40 if ctx.tier == 'quick' else 72
     for i in range(n):
